@@ -193,7 +193,10 @@ static void sweep_child(const void *job, size_t n) {
 		for (int b = 0; b < 6; b++) for (int s = 0; s < 12; s++) { cmd_track_output(BOARDS[b], CS[s]); if (res_nviol() > 3) goto out; }
 		cmd_track_output_all(0x03); cmd_track_output_all(0x02); cmd_track_output_all(0x00);
 		for (int b = 0; b < 6; b++) { for (int v = 0; v < 256; v += (b == 0 ? 1 : 51)) cmd_admin(0, BOARDS[b], v); cmd_admin(1, BOARDS[b], 0); cmd_admin(1, BOARDS[b], 1); cmd_admin(1, BOARDS[b], 2); cmd_admin(2, BOARDS[b], 0); cmd_admin(3, BOARDS[b], 0); if (res_nviol() > 3) goto out; }
-		{ static const char *REVS[] = {"rev1", "nosuch", "point1", NULL}; for (int r = 0; r < 4; r++) for (int b = 0; b < 6; b++) cmd_reverser(REVS[r], BOARDS[b]); }
+		{ static const char *REVS[] = {"rev1", "nosuch", "point1", NULL}; for (int r = 0; r < 4; r++) for (int b = 0; b < 6; b++) {
+			/* the reverser reports a state first: a rejected request must leave a KNOWN state alone (after start-up it is unknown anyway) */
+			if (cm_board_connected(&M, 0)) { uint8_t v[8] = {5, '3', '0', '0', '5', '1', 1, (uint8_t) ('0' + (b & 1))}; sb_send(M.b[0].sbnode, MSG_VENDOR, v, 8); vs_point(); hx_quiesce(); uint8_t *um; while ((um = bidib_read_message())) free(um); logpos = SB.nlog; }
+			cmd_reverser(REVS[r], BOARDS[b]); } }
 	} else {
 		static const char *TR[] = {"train1", "train2", "nosuch", NULL};
 		int t = (part - 1) % 4, b0 = (part - 1) / 4;   /* one child per (train, board) pair */
